@@ -601,5 +601,8 @@ RULES = [
     ("C03.publast", rule_publast),
     ("C03.select", rule_select),
     ("C03.wake", rule_wake),
+    # leftover hand-over and the helper's batch grab are wfcqueue splices (into a live queue for the hand-over)
+    ("C03.queue", lambda c, r: pat.shared(__import__("sa.rules.c10", fromlist=["x"]).rule_splice, "C03.queue")(c, r)),
+    ("C03.queue", lambda c, r: pat.shared(__import__("sa.rules.c10", fromlist=["x"]).rule_append, "C03.queue")(c, r)),
 ]
 FLOORS = {}
